@@ -321,6 +321,109 @@ for name, tmpl in LAYOUTS.items():
         prol["%s/%s" % (name, "async" if a else "sync")] = found
 out["prologues"] = prol
 
+# ---------------------------------------------------------------- every with statement of this interpreter's standard library
+# (compile + dis only; 3.11+ where instructions carry source positions, which delimit prologue / store sequence
+# without using any of stackscope's logic)
+import ast as _ast
+import os as _os
+import sysconfig as _sysconfig
+
+
+def always_rendered(t):
+    """is this `as` target in the documented always-rendered grammar?"""
+    if isinstance(t, _ast.Name):
+        return True
+    if isinstance(t, _ast.Attribute):
+        return always_rendered(t.value)
+    if isinstance(t, _ast.Subscript):
+        sl = t.slice
+        ok = isinstance(sl, (_ast.Constant, _ast.Name)) or (isinstance(sl, _ast.UnaryOp) and isinstance(sl.operand, _ast.Constant))
+        return ok and always_rendered(t.value)
+    if isinstance(t, _ast.Call):
+        return not t.keywords and not any(isinstance(a, _ast.Starred) for a in t.args) and always_rendered(t.func) and all(
+            isinstance(a, (_ast.Constant, _ast.Name)) or always_rendered(a) for a in t.args)
+    if isinstance(t, (_ast.Tuple, _ast.List)):
+        return all(always_rendered(e) for e in t.elts)
+    if isinstance(t, _ast.Starred):
+        return always_rendered(t.value)
+    return False
+
+
+def stdlib_with_corpus():
+    root = _sysconfig.get_paths()["stdlib"]
+    n_files = n_items = n_targets = n_skipped = 0
+    store_ops = {}
+    prologues = {"sync": {}, "async": {}}
+    for dirpath, dirnames, filenames in _os.walk(root):
+        dirnames[:] = sorted(d for d in dirnames if d not in ("site-packages", "__pycache__", "test", "tests", "idlelib", "lib2to3", "turtledemo"))
+        for fn in sorted(filenames):
+            if not fn.endswith(".py"):
+                continue
+            path = _os.path.join(dirpath, fn)
+            try:
+                src = open(path, encoding="utf-8").read()
+                tree = _ast.parse(src)
+                top = compile(tree, path, "exec", dont_inherit=True)
+            except Exception:
+                n_skipped += 1
+                continue
+            n_files += 1
+            withs = {}
+            for n in _ast.walk(tree):
+                if isinstance(n, (_ast.With, _ast.AsyncWith)):
+                    withs[(n.lineno, n.col_offset, n.end_lineno, n.end_col_offset)] = n
+            if not withs:
+                continue
+            for code in all_codes(top):
+                insns = list(dis.get_instructions(code))
+                seen_per_stmt = {}
+                for i, ins in enumerate(insns):
+                    if ins.opname not in WITH_OPS:
+                        continue
+                    pos = ins.positions
+                    key = (pos.lineno, pos.col_offset, pos.end_lineno, pos.end_col_offset)
+                    node = withs.get(key)
+                    if node is None:
+                        continue
+                    k = seen_per_stmt.get(key, 0)
+                    seen_per_stmt[key] = k + 1
+                    item = node.items[k % len(node.items)]
+                    n_items += 1
+                    kind = "async" if isinstance(node, _ast.AsyncWith) else "sync"
+                    pro = [ins.opname]
+                    j = i + 1
+                    while j < len(insns):
+                        p2 = insns[j].positions
+                        if (p2.lineno, p2.col_offset, p2.end_lineno, p2.end_col_offset) != key or insns[j].opname == "POP_TOP":
+                            break
+                        pro.append(insns[j].opname)
+                        j += 1
+                    t = tuple(pro)
+                    prologues[kind][t] = prologues[kind].get(t, 0) + 1
+                    ov = item.optional_vars
+                    if ov is None or not always_rendered(ov):
+                        continue
+                    n_targets += 1
+                    rng = (ov.lineno, ov.col_offset, ov.end_lineno, ov.end_col_offset)
+                    while j < len(insns):
+                        p2 = insns[j].positions
+                        if p2.lineno is None:
+                            break
+                        inside = (p2.lineno, p2.col_offset or 0) >= (rng[0], rng[1]) and (p2.end_lineno, p2.end_col_offset or 0) <= (rng[2], rng[3])
+                        if not inside:
+                            break
+                        store_ops[insns[j].opname] = store_ops.get(insns[j].opname, 0) + 1
+                        j += 1
+    return {
+        "files": n_files, "unparsable": n_skipped, "with_items": n_items, "always_rendered_targets": n_targets,
+        "store_opnames": store_ops,
+        "prologues": {k: sorted([list(t), c] for t, c in v.items()) for k, v in prologues.items()},
+    }
+
+
+if sys.version_info >= (3, 11):
+    out["stdlib_with"] = stdlib_with_corpus()
+
 # ---------------------------------------------------------------- exit-call templates
 EXIT_SRC = {
     "fall": """
